@@ -35,6 +35,7 @@ type scnOpts struct {
 	TopValues []int
 	TopInLens []int
 	JPModes   []bool
+	Layouts   []bool // false: every contract has slots and journal names of its own; true: all share one layout
 }
 
 // genScn resolves a scenario through the explorer.
@@ -62,6 +63,9 @@ func genScn(c *mc.Ctx, o *scnOpts) *scn.Scn {
 	}
 	if len(o.NAspects) > 1 {
 		s.NAspects = o.NAspects[c.Choose(len(o.NAspects))]
+	}
+	if len(o.Layouts) > 1 {
+		s.Shared = o.Layouts[c.Choose(len(o.Layouts))]
 	}
 	return s
 }
